@@ -3,17 +3,6 @@
 mod verif_kani {
     use super::*;
 
-    // a buffer of symbolic content and length 0..=4, built with concrete sizes (cheap for CBMC)
-    fn buffer_of(init: &[u8; 4], n: usize) -> Vec<u8> {
-        match n {
-            0 => vec![],
-            1 => vec![init[0]],
-            2 => vec![init[0], init[1]],
-            3 => vec![init[0], init[1], init[2]],
-            _ => vec![init[0], init[1], init[2], init[3]],
-        }
-    }
-
     // C06.memory.write: under the StorageData precondition (inside the data, or a pure append)
     // the buffer afterwards is write_at(old, pos, bytes).  Buffers up to 4 bytes, writes up to 2: bounded.
     #[kani::proof]
@@ -28,7 +17,7 @@ mod verif_kani {
         let pos: usize = kani::any();
         kani::assume(pos <= n && (pos + m <= n || pos == n));
         let mut s = MemoryStorage {
-            buffer: buffer_of(&init, n),
+            buffer: init[..n].to_vec(),
             name: String::new(),
         };
         assert!(s.write(pos as u64, &data[..m]).is_ok());
@@ -50,7 +39,7 @@ mod verif_kani {
         let n: usize = kani::any();
         kani::assume(n <= 4);
         let mut s = MemoryStorage {
-            buffer: buffer_of(&init, n),
+            buffer: init[..n].to_vec(),
             name: String::new(),
         };
         let pos: usize = kani::any();
